@@ -127,6 +127,11 @@ class ConnectModel:
             # Python: min(a, b) = b if b < a else a
             lt = self.interval_lt(it, M.unD(y), M.unD(x), node)
             return y if it.decide(lt) else x
+        if which == "max" and len(xs) == 2 and M.is_D(xs[0]) and M.is_D(xs[1]):
+            x, y = xs
+            # Python: max(a, b) = b if b > a else a   (b > a is evaluated as a < b)
+            lt = self.interval_lt(it, M.unD(x), M.unD(y), node)
+            return y if it.decide(lt) else x
         return NotImplemented
 
     def to_int(self, it, x, node):
@@ -220,7 +225,7 @@ class ConnectOne(Contract):
       initial data:                   cache entry at time -shift (pulled) or the memory slot (otherwise)
     """
     target = WORLD + ".connect_one"
-    property_ids = ["C11", "C01", "C03", "C06", "C08", "C10"]
+    property_ids = ["C11", "C01", "C03", "C04", "C06", "C08", "C10"]
     configure = "configure"
     variants = [{"dest_attr_given": da, "initial": ini} for da in (True, False) for ini in (False, True)]
     shard_variants = True
